@@ -58,7 +58,7 @@ TROUGH, LENGTH = 42, 128
 
 def gen_plan(seed, tier="quick"):
     r = rng_of(seed)
-    fixture = r.choice(["NP1", "NP1", "NP21", "NP24"])
+    fixture = r.choice(["NP1", "NP1", "NP21", "NP24", "NP24_int"])      # NP24_int: four shanks interleaved channel by channel
     nap = r.choice([32, 32, 48, 64, 96, 128])
     ns = r.choice([4000, 6000, 10000, r.randrange(4000, 30000)])
     if nap >= 96:
@@ -92,7 +92,7 @@ def gen_plan(seed, tier="quick"):
     # duplicates across units
     if nunits >= 2 and r.random() < 0.5 and units[0]:
         units[1] = sorted(set(units[1]) | set(r.sample(units[0], min(len(units[0]), 3))))
-    labels = r.sample(range(0, 50), nunits)
+    labels = r.sample(range(-3, 50), nunits)
     spikes = []
     for u, ts in enumerate(units):
         for t in ts:
